@@ -198,23 +198,56 @@ def rw_reference(s):
 
 # {{{ filters
 
+ANSWER_STYLES = ("bool", "match", "count", "numpy", "str")
+
+
+def _split_filter(filt):
+    """'only:x,y@match' -> ('only:x,y', 'match'); the style defaults to 'bool'."""
+    base, _, style = filt.partition("@")
+    return base, style or "bool"
+
+
+class _Yes:
+    """A truthy non-bool answer (what re.match returns on success)."""
+
+    def __repr__(self):
+        return "<yes>"
+
+
+def _answer(style, yes, name):
+    """How a caller's predicate may say yes / no: a bool, a match object / None, a count, a
+    numpy bool, the name / the empty string.  Only the truth value carries meaning."""
+    if style == "bool":
+        return yes
+    if style == "match":
+        return _Yes() if yes else None
+    if style == "count":
+        return 2 if yes else 0
+    if style == "numpy":
+        import numpy as np
+        return np.bool_(yes)
+    if style == "str":
+        return name if yes else ""
+    raise ValueError(style)
+
+
 def filter_fn(filt):
-    """'all' -> None (the default), 'none' -> reject everything, 'only:x,y' -> accept x and y."""
-    if filt == "all":
+    """'all' -> None (the default), 'none' -> reject everything, 'only:x,y' -> accept x and y;
+    an '@style' suffix selects how the predicate expresses its answer (ANSWER_STYLES)."""
+    base, style = _split_filter(filt)
+    if base == "all" and style == "bool":
         return None
-    if filt == "none":
-        return lambda name: False
-    assert filt.startswith("only:")
-    names = frozenset(filt[5:].split(","))
-    return lambda name: name in names
+    return lambda name: _answer(style, filter_pass(base, name), name)
 
 
 def filter_pass(filt, name):
-    if filt == "all":
+    base, _style = _split_filter(filt)
+    if base == "all":
         return True
-    if filt == "none":
+    if base == "none":
         return False
-    return name in filt[5:].split(",")
+    assert base.startswith("only:")
+    return name in base[5:].split(",")
 
 # }}}
 
@@ -546,6 +579,11 @@ def case_simplifications(case):
         yield (op, a, b2, filt)
     if op != "fuse" and filt != "all":
         yield (op, a, b, "all")
+        base, style = _split_filter(filt)
+        if style != "bool":
+            yield (op, a, b, base)
+        if base.startswith("only:"):
+            yield (op, a, b, "none" + ("" if style == "bool" else "@" + style))
     # uniform rewrites of the whole case (twins must change together)
     for fn in (_product_to_sum, _small_constants):
         cand = (op, _map_exprs(a, fn), _map_exprs(b, fn), filt)
@@ -653,7 +691,10 @@ def rename_case(case, names=True, ids=True):
     a2 = rs(a)
     b2 = rs(b)
     if names and filt.startswith("only:"):
-        filt = "only:" + ",".join(sorted(vmap.get(n, n) for n in filt[5:].split(",")))
+        base, style = _split_filter(filt)
+        filt = "only:" + ",".join(sorted(vmap.get(n, n) for n in base[5:].split(",")))
+        if style != "bool":
+            filt += "@" + style
     return (op, a2, b2, filt)
 
 
